@@ -17,6 +17,7 @@ THEOREMS = [
     "Ural.Props.C05.normalize_port",
     "Ural.Props.C05.resolvedPath_eq",
     "Ural.Props.C05.normalize_path_deletion",
+    "Ural.Props.C05.normalize_path_once",
     "Ural.Props.C05.normalize_path_sublist",
     "Ural.Props.C05.normalize_query_sublist",
     "Ural.Props.C05.normalize_query_subsequence",
@@ -37,6 +38,7 @@ THEOREMS = [
     "Ural.Props.C05.fullPlatform_false",
     "Ural.Normalize.subdomainSub_labels",
     "Ural.Normalize.ampSuffixSub_del",
+    "Ural.Normalize.AmpDel.once",
     "Ural.Normalize.stripIndex_spec",
     "Ural.Normalize.sortQsl_perm",
     "Ural.Normalize.delSubB_iff",
@@ -86,9 +88,7 @@ ASSUMPTIONS = [
 ]
 UNPROVED = (
     "platform_aware=True where the facebook/youtube branch rewrites the URL: FullPlatform is false "
-    "(fullPlatform_false); explored by correspondence only. The AMP step is proved to remove only AMP "
-    "markers standing at the end of the path (AmpDel); that at most ONE such marker can be removed is not a "
-    "theorem (it is what the oracle demands of the implementation on every case). The theorems are about "
+    "(fullPlatform_false); explored by correspondence only. The theorems are about "
     "Parsed records; that urlsplit produces them is CPython (shipped per case). Totality is by the model's "
     "type (no error value); that the implementation never raises is checked by correspondence and the oracle."
 )
